@@ -344,6 +344,25 @@ Definition nd_int_all_at (nodes : list nat) (z : list Q) (p cell : nat) : Q :=
   nth (ravel nodes ni) z 0 / pow2 n.
 Definition nd_int_all (nodes : list nat) (z : list Q) : list Q :=
   flat_map (fun p => map (nd_int_all_at nodes z p) (seq 0 (nbins nodes))) (seq 0 (2 ^ length nodes)).
+(* since the repair of intgral_step (cell_volume): int_all[p][cell] = z[cell + corner_p] / 2**n * prod_j dx_j,
+   the integral over the cell of the corner's term of the multilinear interpolant.  nd_int_all above is
+   the code before the repair (no volume factor: right only on grids with equal cell volumes). *)
+Definition nd_cell_vol (grids : list (list Q)) (ci : list nat) : Q :=
+  fold_right Qmult 1
+    (map (fun gi : list Q * nat => nth (S (snd gi)) (fst gi) 0 - nth (snd gi) (fst gi) 0) (combine grids ci)).
+Definition nd_int_all_vol_at (grids : list (list Q)) (z : list Q) (p cell : nat) : Q :=
+  let nodes := map (@length Q) grids in
+  nd_int_all_at nodes z p cell * nd_cell_vol grids (unravel (cell_shape nodes) cell).
+Definition nd_int_all_vol (grids : list (list Q)) (z : list Q) : list Q :=
+  let nodes := map (@length Q) grids in
+  flat_map (fun p => map (nd_int_all_vol_at grids z p) (seq 0 (nbins nodes))) (seq 0 (2 ^ length nodes)).
+(* total weight of one cell (all corners) *)
+Definition nd_cell_weight (w : list Q) (ncell cell ncorner : nat) : Q :=
+  fold_right Qplus 0 (map (fun p => nth (p * ncell + cell) w 0) (seq 0 ncorner)).
+(* InterpNDHist after the repair: int_step = cumsum(max corner value of the cell * cell volume) *)
+Definition ndh_weights (grids : list (list Q)) (cellmax : list Q) : list Q :=
+  let nodes := map (@length Q) grids in
+  map (fun cell => nth cell cellmax 0 * nd_cell_vol grids (unravel (cell_shape nodes) cell)) (seq 0 (nbins nodes)).
 Fixpoint qcumsum (acc : Q) (l : list Q) : list Q :=
   match l with [] => [] | x :: t => (acc + x) :: qcumsum (acc + x) t end.
 
